@@ -21,6 +21,16 @@ def main():
     if prop in ("C01", "C05", "C07"):
         from tx import subst
         obs += subst.obligations(prop)
+    if prop in ("C03", "C09", "C10"):
+        # declarations, initialisations and identifiers are collected by passes: they are complete only if every class presents every
+        # part to a pass (the V contracts of all classes, whichever property the class case was written for)
+        seen = {o["id"] for o in obs}
+        for c in cases.CASES:
+            if prop not in c.props:
+                for o in run_cases.run_case(c):
+                    if o["id"].startswith("V/") and o["id"] not in seen:
+                        seen.add(o["id"])
+                        obs.append(dict(o, id="traversal/" + o["id"], finding_key=o.get("finding_key", o["id"])))
     if prop in ("C03", "C05", "C06", "C10"):
         from tx import pipeline
         obs += pipeline.obligations()
